@@ -97,9 +97,15 @@ CallerPairing(drv, wire, cl) ==
         \* TYPE frame directly followed (among the caller's entries) by a command of the caller that needs that device type;
         \* an ENABLE DEVICE TYPE the application sent itself is a command like any other
         IsEDT(k) == wire[k].bits = 16 /\ wire[k].frame \div 256 = 193
-        IsPfx(j) == /\ IsEDT(pos[j]) /\ j < Len(pos)
-                    /\ \E u \in 1..Len(cl.unit) : /\ cl.unit[u].dt # 0 /\ cl.unit[u].dt = wire[pos[j]].frame % 256
-                                                   /\ cl.unit[u].frame = wire[pos[j + 1]].frame /\ cl.unit[u].bits = wire[pos[j + 1]].bits
+        \* (only a caller whose unit contains such a frame of its own needs the closer look; for everybody else every
+        \* ENABLE DEVICE TYPE entry is a prefix -- also one that is written again after a reconnection)
+        Explicit(f) == \E u \in 1..Len(cl.unit) : cl.unit[u].frame = f /\ cl.unit[u].bits = 16 /\ cl.unit[u].dt = 0
+        IsPfx(j) == /\ IsEDT(pos[j])
+                    /\ \/ ~Explicit(wire[pos[j]].frame)
+                       \/ /\ j < Len(pos)
+                          /\ \E u \in 1..Len(cl.unit) : /\ cl.unit[u].dt # 0 /\ cl.unit[u].dt = wire[pos[j]].frame % 256
+                                                         /\ cl.unit[u].frame = wire[pos[j + 1]].frame
+                                                         /\ cl.unit[u].bits = wire[pos[j + 1]].bits
         keepix == SelectSeq([j \in 1..Len(pos) |-> j], LAMBDA j : ~IsPfx(j))
         nopfx == [j \in 1..Len(keepix) |-> pos[keepix[j]]]
         \* a caller that asked for transparent retry may put a command on the wire again after a reconnection:
